@@ -2,7 +2,8 @@
    This file contains only the property theorems; each is closed by an exact lemma. *)
 From Coq Require Import ZArith List Bool Lia.
 From PB Require Import lib.SumZ lib.PySlice lib.Arr C11.DtD C11.Table gen.GenBands C11.Banded C11.History
-                       C11.Uses C11.UsesProofs C11.PSplineSys C11.PSplineSysProofs.
+                       C11.Uses C11.UsesProofs C11.PSplineSys C11.PSplineSysProofs
+                       C11.Effects C11.EffectsProofs gen.GenBandEffects.
 Import ListNotations.
 Open Scope Z_scope.
 
@@ -240,3 +241,171 @@ Example C11_pspline_history_nonvacuous :
   | None => False
   end.
 Proof. vm_compute. reflexivity. Qed.
+
+(* ---- requests that may be REJECTED (C11/Effects.v): reset_diagonals is executed as the SEQUENCE OF
+   EFFECTS extracted from the current source (gen/GenBandEffects.v: reset_diagonals_effects), so that an
+   exception raised half-way leaves exactly the attributes assigned before the raising statement
+   changed.  The theorems hold for every order that passes the boolean check effects_ok; the first
+   theorem says that the order of the current source passes it. ---- *)
+
+(* The order of assignments and validations in the current source: nothing can raise between the first
+   write to original_diagonals and the last layout flag, the conversion reads the flags before they are
+   overwritten, the penalty and band bookkeeping are rebuilt last -- and lam is validated before the
+   first assignment. *)
+Theorem C11_reset_order_checked :
+  effects_ok reset_diagonals_effects = true /\ checks_first reset_diagonals_effects = true.
+Proof. split; vm_compute; reflexivity. Qed.
+Print Assumptions C11_reset_order_checked.
+
+(* Every method of PenalizedSystem / PSpline that assigns attributes of self (events generated from the
+   source, calls of other methods inlined): no attribute is assigned before the last raising statement. *)
+Theorem C11_mutators_strongly_safe :
+  forallb (fun m => strongly_safe (snd m)) mutator_events = true.
+Proof. vm_compute. reflexivity. Qed.
+Print Assumptions C11_mutators_strongly_safe.
+
+Theorem C11_strongly_safe_sound : forall evs : list event, strongly_safe evs = true ->
+  forall pre w post, evs = pre ++ Raises w :: post -> forall a, ~ In (Assigns a) pre.
+Proof. exact strongly_safe_sound. Qed.
+Print Assumptions C11_strongly_safe_sound.
+
+(* An accepted request run through the effects IS Uses.ureset (Leibniz-equal object), and the
+   constructor run through the same effects IS Uses.ureset on no previous object: everything proved
+   above about accepted histories is about the extracted order. *)
+Theorem C11_accepted_request_is_reset : forall (hp : bool) (N : nat) (q : req) (u : usys),
+  req_valid q = true ->
+  exec hp N q reset_diagonals_effects true u =
+    match ureset hp N (Some u) (req_cfg q) with Some u' => Done u' | None => Raised u end.
+Proof. intros hp N q u. exact (exec_valid hp N q _ u (proj1 C11_reset_order_checked)). Qed.
+Print Assumptions C11_accepted_request_is_reset.
+
+Theorem C11_constructor_is_reset : forall (hp : bool) (N : nat) (c : cfg),
+  einit hp N reset_diagonals_effects (cfg_req c) = ureset hp N None c.
+Proof. intros hp N c. exact (einit_valid hp N _ c (proj1 C11_reset_order_checked)). Qed.
+Print Assumptions C11_constructor_is_reset.
+
+(* A REJECTED request (lam <= 0, non-scalar lam, diff_order < 0; ValueError caught by the caller)
+   leaves the whole object -- every attribute, and the identity of its buffers -- exactly as it was. *)
+Theorem C11_reset_rejected_noop : forall (hp : bool) (N : nat) (q : req) (u : usys),
+  req_valid q = false -> exec hp N q reset_diagonals_effects true u = Raised u.
+Proof.
+  intros hp N q u.
+  exact (rejected_noop_strong hp N q _ u (proj1 C11_reset_order_checked) (proj2 C11_reset_order_checked)).
+Qed.
+Print Assumptions C11_reset_rejected_noop.
+
+(* Hence a history with rejected requests is the same history with them deleted ... *)
+Theorem C11_rejected_requests_erasable : forall (hp : bool) (N : nat) (ops : list rop) (u : usys),
+  rrun hp N reset_diagonals_effects u ops = urun hp N u (flat_map erase ops).
+Proof.
+  intros hp N ops.
+  exact (rrun_erase hp N _ ops (proj1 C11_reset_order_checked) (proj2 C11_reset_order_checked)).
+Qed.
+Print Assumptions C11_rejected_requests_erasable.
+
+(* ... and a system given ANY sequence of requests, each accepted or rejected, is at the end the system
+   built directly with the LAST ACCEPTED request (contents, flags, band bookkeeping, main_diagonal, no
+   shared memory), with D'D in the layout its flags claim. *)
+Theorem C11_requests_history : forall (hp : bool) (N : nat) (q0 : req) (qs : list req) (u0 : usys),
+  q_d q0 < Z.of_nat N -> Forall (fun q => q_d q < Z.of_nat N) qs ->
+  einit hp N reset_diagonals_effects q0 = Some u0 ->
+  exists u3, ureset hp N None (req_cfg (last_valid q0 qs)) = Some u3 /\
+             usys_eq (rrun hp N reset_diagonals_effects u0 (map RReq qs)) u3 /\
+             UInv N (rrun hp N reset_diagonals_effects u0 (map RReq qs)).
+Proof.
+  intros hp N q0 qs u0.
+  exact (requests_history hp N _ q0 qs u0 (proj1 C11_reset_order_checked) (proj2 C11_reset_order_checked)).
+Qed.
+Print Assumptions C11_requests_history.
+
+(* With reversals and uses in between: after ANY history of accepted / rejected requests, accepted
+   resets, reverse_penalty and uses, a valid request is accepted and gives the directly built system.
+   (Proved for every order that passes effects_ok, also one that validates lam late.) *)
+Theorem C11_history_with_rejected : forall (hp : bool) (N : nat) (c0 : cfg) (ops : list rop) (q : req) (u0 : usys),
+  (c_d c0 < N)%nat -> Forall (rop_ok N) ops -> req_valid q = true -> q_d q < Z.of_nat N ->
+  ureset hp N None c0 = Some u0 ->
+  exists u1 u2,
+    exec hp N q reset_diagonals_effects true (rrun hp N reset_diagonals_effects u0 ops) = Done u1 /\
+    ureset hp N None (req_cfg q) = Some u2 /\ usys_eq u1 u2 /\ UInv N u1.
+Proof.
+  intros hp N c0 ops q u0.
+  exact (history_with_rejected hp N _ c0 ops q u0 (proj1 C11_reset_order_checked)).
+Qed.
+Print Assumptions C11_history_with_rejected.
+
+(* At every point of every such history the stored diagonals are D'D in the layout the flags claim and
+   do not share memory with the penalty: flags and diagonals never desynchronise. *)
+Theorem C11_rejected_never_desync : forall (hp : bool) (N : nat) (c0 : cfg) (ops : list rop) (u0 : usys),
+  (c_d c0 < N)%nat -> Forall (rop_ok N) ops -> ureset hp N None c0 = Some u0 ->
+  let s := u_sys (rrun hp N reset_diagonals_effects u0 ops) in
+  aliased (rrun hp N reset_diagonals_effects u0 ops) = false /\
+  aeq (s_orig s) (layout (s_d s) N (s_lower s) (s_rev s)).
+Proof.
+  intros hp N c0 ops u0.
+  exact (rejected_never_desync hp N _ c0 ops u0 (proj1 C11_reset_order_checked)).
+Qed.
+Print Assumptions C11_rejected_never_desync.
+
+(* For ANY order that passes effects_ok (also a late lam check): a rejected request keeps the penalty,
+   lam, the band bookkeeping and main_diagonal, and keeps (flags, original_diagonals) consistent. *)
+Theorem C11_rejected_keeps_invariant : forall (hp : bool) (N : nat) (q : req) (es : list effect) (u u' : usys),
+  effects_ok es = true -> UInv N u -> q_d q < Z.of_nat N ->
+  exec hp N q es true u = Raised u' -> UInv N u' /\ pen_kept u u'.
+Proof. exact rejected_keeps. Qed.
+Print Assumptions C11_rejected_keeps_invariant.
+
+(* PSpline.reset_penalty_diagonals (forwards to reset_diagonals with allow_pentapy=False and
+   padding = spline_degree - diff_order; checked by the translator) with rejected requests. *)
+Theorem C11_pspline_history_with_rejected :
+  forall (hp : bool) (nb : nat) (deg : Z) (p0 : pcfg) (ops : list prop_) (p : preq) (u0 : usys),
+  Forall (prop_ok nb) ops -> req_valid (preq_req deg p) = true -> 1 <= pq_d p < Z.of_nat nb ->
+  pinit hp nb deg p0 = Some u0 ->
+  exists u1 u2,
+    exec hp nb (preq_req deg p) reset_diagonals_effects true (prrun hp nb deg reset_diagonals_effects u0 ops) = Done u1 /\
+    pinit hp nb deg (preq_pcfg p) = Some u2 /\ usys_eq u1 u2 /\ UInv nb u1.
+Proof.
+  intros hp nb deg p0 ops p u0.
+  exact (pspline_history_with_rejected hp nb deg _ p0 ops p u0 (proj1 C11_reset_order_checked)).
+Qed.
+Print Assumptions C11_pspline_history_with_rejected.
+
+(* The order matters: with the order of /repo 0f85b1f (lam validated AFTER original_diagonals and the
+   layout flags were overwritten) the rejected request reset_diagonals(lam=0, diff_order=2,
+   allow_lower=False) on PenalizedSystem(8, lam=1, diff_order=2) changes lower and original_diagonals
+   (3 -> 5 rows) while the penalty keeps its 3 rows. *)
+Theorem C11_late_lam_check_order_refuted :
+  match ureset false 8 None ex_c0 with
+  | Some u0 =>
+      match exec false 8 ex_bad order_0f85b1f true u0 with
+      | Raised u' =>
+          s_lower (u_sys u0) = true /\ s_lower (u_sys u') = false /\
+          nr (s_orig (u_sys u0)) = 3 /\ nr (s_orig (u_sys u')) = 5 /\ nr (s_pen (u_sys u')) = 3 /\
+          uobserve u' <> uobserve u0
+      | Done _ => False
+      end
+  | None => False
+  end.
+Proof. exact strong_noop_refuted. Qed.
+Print Assumptions C11_late_lam_check_order_refuted.
+
+(* non-vacuity: a rejected request (lam = 0, asking for the full reversed layout) between two accepted
+   ones with different layouts; the object after the rejected request is the object before it, and the
+   final object is the directly built one *)
+Example C11_requests_history_nonvacuous :
+  let q0 := {| q_lam := 2; q_lam_len := 1; q_d := 2; q_allow_lower := true; q_rev := None; q_allow_penta := false; q_pad := 1 |} in
+  let bad := {| q_lam := 0; q_lam_len := 1; q_d := 2; q_allow_lower := false; q_rev := Some true; q_allow_penta := false; q_pad := 0 |} in
+  let bad2 := {| q_lam := 3; q_lam_len := 1; q_d := (-1); q_allow_lower := false; q_rev := None; q_allow_penta := true; q_pad := 0 |} in
+  let q1 := {| q_lam := 3; q_lam_len := 1; q_d := 2; q_allow_lower := false; q_rev := None; q_allow_penta := true; q_pad := 0 |} in
+  let q2 := {| q_lam := 5; q_lam_len := 1; q_d := 3; q_allow_lower := true; q_rev := Some true; q_allow_penta := true; q_pad := 2 |} in
+  match einit true 9 reset_diagonals_effects q0 with
+  | Some u0 =>
+      req_valid bad = false /\ req_valid bad2 = false /\
+      uobserve (rrun true 9 reset_diagonals_effects u0 [RReq bad]) = uobserve u0 /\
+      last_valid q0 [q1; bad; bad2; q2; bad] = q2 /\
+      match ureset true 9 None (req_cfg q2) with
+      | Some u2 => uobserve (rrun true 9 reset_diagonals_effects u0 (map RReq [q1; bad; bad2; q2; bad])) = uobserve u2
+      | None => False
+      end
+  | None => False
+  end.
+Proof. vm_compute. repeat split. Qed.
